@@ -158,11 +158,44 @@ let step key (b : n list) : step =
   | Err e -> SDe e
   | Ok x -> (match tser_top t x with Err e -> SSer e | Ok bs -> SOk bs)
 
+(* the statements of C16_decides / C16_reencodes evaluated on one case: when the input is the
+   canonical serialization (encoding 1 or 2) of a value v, then tde succeeds iff conforms t v, its
+   result is typed e t 0 v, and the re-encoded bytes decode to norm t v.  Returns "" (holds),
+   "na" (input is not such a serialization) or a description of the mismatch. *)
+let spec_checked = ref 0
+let spec_na = ref 0
+let spec_check key (b : n list) : string =
+  let t = ty_of_key key in
+  match de_as_value true b with
+  | Err _ -> incr spec_na; "na"
+  | Ok v ->
+    let enc = if serialize E2 v = Ok b then Some E2 else if serialize E1 v = Ok b then Some E1 else None in
+    (match enc with
+     | None -> incr spec_na; "na"
+     | Some e ->
+       incr spec_checked;
+       let c = conforms t v in
+       let ty = typed e t O v in
+       (match tde_top t b with
+        | Ok x ->
+            if not c then "accepted-but-not-conforming"
+            else if ty <> Some x then "typed-differs"
+            else (match tser_top t x with
+                  | Ok bs' -> if de_as_value true bs' = Ok (norm t v) then "" else "reencoded-differs-from-norm"
+                  | Err _ -> "reencode-failed")
+        | Err _ -> if c then "conforming-but-rejected" else if ty <> None then "typed-some-but-rejected" else ""))
+
+let spec_out : out_channel option ref = ref None
+
 let run_line (line : string) : string =
   match String.split_on_char ' ' line with
   | ["de"; key; h] ->
       if h = "" then "err Empty" else
-      (match step key (bytes_of_hex h) with
+      ((match !spec_out with
+        | Some oc -> let r = spec_check key (bytes_of_hex h) in
+                     if r <> "" && r <> "na" then (output_string oc (r ^ " " ^ line ^ "\n"))
+        | None -> ());
+      match step key (bytes_of_hex h) with
        | SOk bs -> "ok " ^ hex_of_bytes bs
        | SDe e -> "err " ^ err_text e
        | SSer e -> "serr " ^ err_text e)
@@ -179,6 +212,7 @@ let run_line (line : string) : string =
 
 let () =
   load_types Sys.argv.(3);
+  (if Array.length Sys.argv > 4 then spec_out := Some (open_out Sys.argv.(4)));
   let ic = open_in Sys.argv.(1) in
   let oc = open_out Sys.argv.(2) in
   (try
@@ -188,4 +222,7 @@ let () =
       output_string oc out; output_char oc '\n'
     done
   with End_of_file -> ());
+  (match !spec_out with
+   | Some sc -> output_string sc (Printf.sprintf "checked %d na %d\n" !spec_checked !spec_na); close_out sc
+   | None -> ());
   close_in ic; close_out oc
